@@ -75,7 +75,7 @@ func TestVerifC08Concurrent(t *testing.T) {
 	rep.Assume("the high watermark does not move while a clean runs")
 	defer verifhook.Set(nil)
 	root := kit.NewRNG(kit.Mix(kit.Seed(), 0xC08C))
-	ncases := kit.Scale(160, 1600)
+	ncases := kit.Scale(160, 1100)
 	for i := 0; i < ncases && rep.NumViolations() < 14; i++ {
 		c08RunConcurrent(rep, root.Fork(uint64(i)), i)
 	}
